@@ -83,6 +83,9 @@ class Runner(RuleBasedStateMachine):
         self.jail = Jail(pkg.files, self.backend, pkg.info.main_script, calib_cache=self.calib)
         os.makedirs(self.jail.path("/results2"), exist_ok=True)
         os.makedirs(self.jail.path("/work/relout"), exist_ok=True)  # a destination given relative to the calling directory (/work)
+        # input files whose names hold characters the shell treats specially: -d names ONE file, whatever else lies next to it
+        for fn in ("run1.root", "run[1].root", "a  b.root"):
+            open(self.jail.path("/data/" + fn), "w").write("x")
         self.state = "fresh"
         self.history: List[dict] = []
         self.tokens_at: Dict[str, Optional[str]] = {}
@@ -90,7 +93,7 @@ class Runner(RuleBasedStateMachine):
 
     @rule(
         flags=st.sampled_from(["", "", "-c", "-r", "-r", "-c -r", "-x", "-d", "-c extra", "-r extra", "-o", "--help", "-cr"]),
-        dfile=st.sampled_from([None, None, "/data/a.root", "root://host//b.root", "/data/with space.root", "reldata/c.root"]),
+        dfile=st.sampled_from([None, None, "/data/a.root", "root://host//b.root", "/data/with space.root", "reldata/c.root", "/data/run[1].root", "/data/a  b.root", "/data/*.root"]),
         odir=st.sampled_from([None, None, "/results2", "/results/renamed.root", "/out2", "relout"]),
         fault=st.sampled_from([None, None, None, "setup", "build0", "build1", "job", "sudo", "convert", "copy", "job-silent", "convert-partial", "copy-partial"]),
     )
@@ -217,7 +220,7 @@ class Runner(RuleBasedStateMachine):
 
     @precondition(lambda self: self.state == "built")
     @rule(
-        dfile=st.sampled_from([None, "/data/a.root", "/data/b.root", "root://host//b.root", "reldata/c.root"]),
+        dfile=st.sampled_from([None, "/data/a.root", "/data/b.root", "root://host//b.root", "reldata/c.root", "/data/run[1].root", "/data/a  b.root"]),
         odir=st.sampled_from([None, "/results2", "/results/renamed.root", "/out2", "relout"]),
         fault=st.sampled_from([None, "job", "job", "convert", "copy", "sudo", "setup", None, "job-silent", "job-silent", "convert-partial", "copy-partial", "convert-partial"]),
     )
